@@ -66,6 +66,8 @@ inductive Kind where
   | bool                -- DBool: length 1, byte 0 or 1
   | tuint (n : Nat)     -- DTUint16/32/64: length ≤ n, no leading zero byte
   | custom (len : Nat) (ok : Bytes → Bool) -- fixed length plus a value predicate (e.g. public key)
+  | bigsize             -- DBigSize (MakeBigSizeRecord / BigSizeT): reads ONE BigSize from the stream and
+                        -- IGNORES the declared length (HEAD behaviour, finding F-tlv-bigsize-record-length-ignored)
 
 /-- length check made by the decoder before it reads anything (`ErrTypeForDecoding`). -/
 def Kind.lenOk : Kind → Nat → Bool
@@ -74,6 +76,7 @@ def Kind.lenOk : Kind → Nat → Bool
   | .bool, l => l == 1
   | .tuint n, l => l ≤ n
   | .custom n _, l => l == n
+  | .bigsize, _ => true
 
 /-- value check made after the bytes were read. -/
 def Kind.valOk : Kind → Bytes → Bool
@@ -84,6 +87,11 @@ def Kind.valOk : Kind → Bytes → Bool
     | [] => true
     | b :: _ => b != 0
   | .custom _ ok, v => ok v
+  | .bigsize, _ => true
+
+def Kind.isBigsize : Kind → Bool
+  | .bigsize => true
+  | _ => false
 
 abbrev Known := List (Nat × Kind)
 
@@ -124,12 +132,22 @@ def valOkFor (known : Known) (typ : Nat) (val : Bytes) : Bool :=
   | some k => k.valOk val
   | none => true
 
+/-- is `typ` known to the stream as a BigSize-encoded record? -/
+def isBigsizeFor (known : Known) (typ : Nat) : Bool :=
+  match lookupKind known typ with
+  | some k => k.isBigsize
+  | none => false
+
 /--
 `Stream.decode` (as of the fixed tree: a declared length that exceeds the
 remaining input is `io.ErrUnexpectedEOF` on both paths).  State carried round
 the loop: `min` (a `uint64`: wraps) and the `overflow` flag.  Returns every
 record of the stream (known ones with their raw value bytes, unknown ones as
-retained in the `TypeMap`).  `fuel` bounds the number of loop iterations; every
+retained in the `TypeMap`).  Every decoder of the `Kind` universe consumes exactly
+the declared `length` bytes, EXCEPT `bigsize`: `DBigSize` reads one BigSize straight
+from the stream whatever the declared length is, and `Stream.decode` does not check
+how many bytes a decoder consumed — the loop simply continues behind what was read.
+`fuel` bounds the number of loop iterations; every
 iteration consumes at least two bytes, so `b.length + 1` always suffices.
 -/
 def decodeLoop (known : Known) (p2p : Bool) :
@@ -145,6 +163,15 @@ def decodeLoop (known : Known) (p2p : Bool) :
       | .error e => .error (SErr.ofV e)
       | .ok (len, r2) =>
         if p2p && decide (len > maxRecordSize) then .error .recordTooLarge else
+        if isBigsizeFor known typ then
+          -- DBigSize: the declared length `len` is not looked at
+          match readVarInt r2 with
+          | .error e => .error (SErr.ofV e)
+          | .ok (v, r3) =>
+            match decodeLoop known p2p fuel ((typ + 1) % two64) (typ == two64 - 1) r3 with
+            | .error e => .error e
+            | .ok rs => .ok ((typ, writeVarInt v) :: rs)
+        else
         if !lenOkFor known typ len then .error .typeForDecoding else
         if r2.length < len then .error .unexpectedEof else
         if !valOkFor known typ (r2.take len) then .error .valueInvalid else
